@@ -359,6 +359,9 @@ class MovingWindowReduction(ArrayExpr):
         return type(self)(self.array.rechunk({self.sliding_axis: split}), *self.operands[1:])
 
     def _layer(self):
+        graph = self._graph_if_unlowered()
+        if graph is not None:
+            return graph
         x = self.array
         axis = self.sliding_axis
         window = self.window
@@ -549,6 +552,9 @@ class SlidingWindowReduction(ArrayExpr):
         return type(self)(self.array.rechunk({self.sliding_axis: split}), *self.operands[1:])
 
     def _layer(self):
+        graph = self._graph_if_unlowered()
+        if graph is not None:
+            return graph
         x = self.array
         axis = self.sliding_axis
 
